@@ -928,6 +928,11 @@ def show(t, depth=4):
     if t.op == "overlay":
         n = (len(t.args) - 1) // 2
         return "%s{%d const stores}" % (show(t.args[0], depth - 1), n)
+    if t.op == "call":
+        nm = str(t.aux).split("::")[-1] if "<" not in str(t.aux).split("::")[-1] else str(t.aux)[-40:]
+        return "call:%s(%s)" % (nm, ", ".join(show(a, depth - 2) for a in t.args[:4]) + (", ..." if len(t.args) > 4 else ""))
+    if t.op == "res":
+        return "%s.%s" % (show(t.args[0], depth - 1), t.aux)
     return "%s(%s)" % (t.op, ", ".join(show(a, depth - 1) for a in t.args))
 
 
